@@ -93,6 +93,46 @@ def rule_extmp_bounds(rep):
     rep.floor("out-of-bounds actions on a material property status", 2)
 
 
+def rule_post_update_bounds(rep, per):
+    """POST-UPDATE-BOUNDS: the integrate() method generated for a corpus behaviour re-checks, after the state update, the bounds and the
+    physical bounds of every persistent variable that declares some - state variables and auxiliary state variables alike: under the
+    Strict policy an end-of-step value outside its bounds makes the call fail instead of being exported."""
+    import glob
+    for path in sorted(glob.glob(os.path.join(VERIF, "corpus", "gb", "*.mfront"))):
+        txt = open(path).read()
+        name = re.search(r"@Behaviour\s+(\w+)", txt).group(1)
+        pers = set(re.findall(r"@(?:StateVariable|AuxiliaryStateVariable)\s+\w+\s+(\w+)", txt))
+        bounded = set(v for v in re.findall(r"@(?:Physical)?Bounds\s+(\w+)\s+in", txt) if v in pers)
+        if not bounded:
+            continue
+        unit = os.path.join(OUT, "C39", "gen", "src", name + "-generic.cxx")
+        if not os.path.exists(unit):
+            raise AnalysisBroken("%s: generated unit not found" % name)
+        dd_ = cfgdump([unit], os.path.join(OUT, "C39", "dumpint"), funcs=r"^tfel::material::%s.*::integrate$" % name,
+                      flags_for=gencheck.gen_flags(os.path.join(OUT, "C39", "gen", "include")))
+        funcs = [Func(x, unit) for x in dd_[unit]["functions"]]
+        ints = [f for f in funcs if f.qname.split("(")[0].endswith("::integrate") and f.qname.startswith("tfel::material::" + name)]
+        if not ints:
+            raise AnalysisBroken("%s: generated integrate() not found" % name)
+        for f in ints:
+            rep.count("generated integrate() methods examined for end-of-step bounds")
+            seen = set()
+            for n in f.stmts.values():
+                if n["k"] == "CallExpr" and "BoundsCheck" in (n.get("callee") or "") and n.get("args"):
+                    lits = [f.stmts[x].get("value") for x in f.walk(n["args"][0]) if f.stmts[x]["k"] == "StringLiteral"]
+                    if lits:
+                        seen.add(lits[0])
+            miss = sorted(bounded - seen)
+            if miss:
+                key = "POST-UPDATE-BOUNDS@%s#%s" % (name, ",".join(miss))
+                if not any(v["key"] == key for v in rep.violations):
+                    rep.fail(key, "%s: the integrate() generated for %s does not re-check the bounds of %s after the state update: under the Strict "
+                             "policy a step that drives it out of its bounds returns 1 and exports the value" % (rel(f.loc), name, miss))
+            else:
+                rep.ok("%s::integrate re-checks %s after the update [%s]" % (name, sorted(bounded), hyp(f)), sample=(hyp(f) == "TRIDIMENSIONAL"))
+    rep.floor("generated integrate() methods examined for end-of-step bounds", 4)
+
+
 def run(tier):
     rep = Report("C39", tier, "other", RULE)
     per = load_corpus("C39")
@@ -110,6 +150,7 @@ def run(tier):
         if "FiniteStrain" in unit:
             rule_k12_tables(rep, funcs)
     rule_extmp_bounds(rep)
+    rule_post_update_bounds(rep, per)
     rep.floor("tri-state status variables", 15)
     rep.floor("K[0] code obligations", 16 * 7 * (5 if tier == "thorough" else 1))
     rep.floor("policy obligations", 20)
